@@ -50,7 +50,9 @@ class RatFuncSegment:
             numerator *= x
             numerator += float(numerator_coeff)
 
-        denominator = 0.0
+        # if no denominator is specified, the transfer function is a
+        # polynomial, i.e. the denominator is 1.
+        denominator = 0.0 if self.denominator_coeffs else 1.0
         for denominator_coeff in reversed(self.denominator_coeffs):
             denominator *= x
             denominator += float(denominator_coeff)
